@@ -22,7 +22,10 @@ func (db *DB) SetMode(m mode.Mode) error {
 		return nil
 	}
 
-	if !db.mode.NoMetabase() {
+	// The handle can be open in a mode without metabase too: Open does not look
+	// at the mode (a shard opened again after Close keeps its mode). Leaving it
+	// behind would keep the file locked against the next Open.
+	if !db.mode.NoMetabase() || db.boltDB != nil {
 		if err := db.Close(); err != nil {
 			return fmt.Errorf("can't set metabase mode (old=%s, new=%s): %w", db.mode, m, err)
 		}
